@@ -480,9 +480,11 @@ class _ValueClassInstance(DefaultVisitor):
     def _visit_nullaryop(self, e: NullaryOp, ctx: None) -> ValueClass:
         match e:
             case ConstNan():
-                exact = _NAN
+                # `nan()` / `inf()` *are* the special value: nothing rounds them, so
+                # a context without a NaN still hands one out (cf. `min`)
+                return _NAN | self._rounded(e, _NAN)
             case ConstInf():
-                exact = _INF
+                return _INF | self._rounded(e, _INF)
             case _:
                 exact = _FINITE      # pi, e, sqrt2, ...
         return self._rounded(e, exact)
@@ -494,8 +496,10 @@ class _ValueClassInstance(DefaultVisitor):
                 return self._rounded(e, a)
             case Logb():
                 return self._rounded(e, _map(_LOGB, a))
-            case AMin() | AMax() | Fst() | Snd():
-                return _TOP          # passes an operand through; see `_rounded`
+            case AMin() | AMax() | Fst() | Snd() | Sum():
+                # passes an operand through (the sum of a one-element list is
+                # that element, unrounded); see `_rounded`
+                return _TOP
             case _:
                 return self._rounded(e, _TOP)
 
